@@ -258,6 +258,9 @@ def run_gendump(ctx: C.Ctx):
     from dataclass_wizard import asdict, fromdict
     if ctx.only is not None and ctx.only < 100000:
         return
+    ctx.trusted += ['generator model DW/Model/GenDump.lean: the printer of the statement forms and the definite-assignment checker are a '
+                    'reading of Python (three-layer block grammar; a name assigned anywhere in the body is local); tied to the code by '
+                    'byte-for-byte comparison of parameter list, body text and ordered closure keys, and by symtable on the real source']
     rng = random.Random(f'C15gd:{ctx.seed}')
     n_cases = ctx.quick(400, 6000)
     cap = gencap.Capture()
